@@ -29,11 +29,26 @@ pub fn generate(thorough: bool, seed: u64, em: &mut Emitter) {
                 }
             }
         }
-        let (token, tok, clear) = match make_token(r, &claims, &marks, true, i % 3 == 0) {
+        let (mut token, mut tok, mut clear) = match make_token(r, &claims, &marks, true, i % 3 == 0) {
             Some(x) => x,
             None => continue,
         };
-        let redact = redaction_set(r, &claims, &marks);
+        let mut undeclared = false;
+        if i % 3 != 0 && tok.alg != "sha-256" && i % 4 == 1 {
+            // a foreign issuer hashed with sha-384 / sha-512 but left _sd_alg out: the SD-JWT then DECLARES sha-256 (the
+            // default); no disclosure is referenced under it, and the key-binding JWT commits under sha-256
+            tok.payload.as_object_mut().unwrap().remove("_sd_alg");
+            let jwt = super::common::sign_hs256(&tok.payload);
+            let ds: Vec<String> = token.split('~').skip(1).filter(|s| !s.is_empty()).map(|s| s.to_string()).collect();
+            token = super::common::presentation_string(&jwt, &ds, "");
+            // under sha-256 none of the disclosures is referenced: what the verifier returns is the payload without bookkeeping
+            let mut stripped = tok.payload.clone();
+            strip_bookkeeping(&mut stripped);
+            clear = stripped;
+            tok.alg = "sha-256".to_string();
+            undeclared = true;
+        }
+        let redact = if undeclared { vec![] } else { redaction_set(r, &claims, &marks) };
         let alg = *r.pick(&["RS256", "RS384", "RS512", "PS256", "PS384", "PS512"]);
         let aud = r.pick(&["https://verifier.example", "aud2", "", "é/~ ü"]).to_string();
         let kb = json!({"aud": aud, "alg": alg});
@@ -43,8 +58,17 @@ pub fn generate(thorough: bool, seed: u64, em: &mut Emitter) {
             _ => json!({"kbpol": {"alg": alg, "aud": aud}}),
         };
         let mut case = present_case(&tok, &token, &clear, &redact, kb, 3, verifier);
-        case["judge_disclosures"] = json!(true);
+        case["judge_disclosures"] = json!(!undeclared);
         case["nontrivial"] = json!(true);
+        if undeclared {
+            // nothing is referenced under the declared (default) algorithm: no disclosure is opened, presented or reported
+            case["expect"]["claims"] = clear.clone();
+            case["expect"]["marks"] = json!([]);
+            case["expect"]["present"] = json!([]);
+            case["expect"]["paths"] = json!([]);
+            case["expect"]["strings"] = json!([]);
+            case["tag"] = json!("digest_algorithm_not_declared");
+        }
         if i % 160 == 6 {
             // the Holder is prepared first and builds a good second later (and again later for the repeated builds):
             // iat is the time of each build(), not of key_binding()
@@ -68,5 +92,25 @@ pub fn generate(thorough: bool, seed: u64, em: &mut Emitter) {
             case["tag"] = json!("staged_redaction");
         }
         em.case("present", case);
+    }
+}
+
+
+/// removes _sd members and placeholder elements (what is left of a payload none of whose disclosures is opened)
+fn strip_bookkeeping(v: &mut Value) {
+    match v {
+        Value::Object(m) => {
+            m.remove("_sd");
+            for c in m.values_mut() {
+                strip_bookkeeping(c);
+            }
+        }
+        Value::Array(a) => {
+            a.retain(|x| !(x.is_object() && x.get("...").map_or(false, |d| d.is_string())));
+            for c in a.iter_mut() {
+                strip_bookkeeping(c);
+            }
+        }
+        _ => {}
     }
 }
